@@ -136,7 +136,12 @@ def step (m : Cqm) (line : String) : Cqm × String :=
       | none => (m, "err:value " ++ showState m)
     | none => (m, "bad-op")
   | _ => match parseOp? line with
-    | some op => fin (m.step op)
+    | some op =>
+      -- model-taking calls also report what is left of the source object: #variables : offset : #interactions
+      let src := match m.sourceAfter op with
+        | some mi => s!" src={mi.vars.length}:{showRat mi.off}:{mi.quad.length}"
+        | none => ""
+      ((fin (m.step op)).1, (fin (m.step op)).2 ++ src)
     | none => (m, "bad-op")
 
 /-! ### C08: `feas atol rtol rows` evaluates every report path on the current model -/
@@ -165,11 +170,26 @@ def showFeas (m : Cqm) (atol rtol : Rat) (rowsL : List (List Rat)) : String :=
     s!"{String.intercalate "," sat}|{fe}|{en}"
   s!"P {String.intercalate " ; " perRow} V {vec false} W {vec true}"
 
+/-- `feasl <labels|none|-> <row>`: `iter_constraint_data` and the three modes of `iter_violations` with `labels=` -/
+def showFeasL (m : Cqm) (labels : Option (List Label)) (row : List Rat) : String :=
+  let rows : Nat → Nat → Rat := fun _ g => row.getD g 0
+  let cs := Feas.evalCons m rows
+  let vl (l : List (Label × Rat)) := String.intercalate "," (l.map fun p => s!"{showLabel p.1}={showRat p.2}")
+  let sh (x : List (Label × Rat) × Bool) := if x.2 then "raise:value" else vl x.1
+  let d := Feas.iterConstraintDataL labels cs 0
+  let data := if d.2 then "raise:value" else String.intercalate "," (d.1.map fun d =>
+      s!"{showLabel d.label}:{showRat d.lhsEnergy}:{showRat d.rhsEnergy}:{showSense d.sense}:{showRat d.activity}:{showRat d.violation}")
+  s!"L {data}|{sh (Feas.iterViolationsL false false labels cs 0)}|{sh (Feas.iterViolationsL true false labels cs 0)}|{sh (Feas.iterViolationsL false true labels cs 0)}"
+
 def stepAll (m : Cqm) (line : String) : Cqm × String :=
   match line.trimAscii.toString.splitOn " " with
   | ["feas", atol, rtol, rows] => match parseRat? atol, parseRat? rtol, parseRows? rows with
     | some atol, some rtol, some rows => (m, showFeas m atol rtol rows)
     | _, _, _ => (m, "bad-op")
+  | ["feasl", labels, row] =>
+    match (if labels = "none" then some none else (csv labels).mapM parseLabel? |>.map some), (csv row).mapM parseRat? with
+    | some ls, some row => (m, showFeasL m ls row)
+    | _, _ => (m, "bad-op")
   | _ => step m line
 
 partial def loop (h : IO.FS.Stream) (m : Cqm) : IO Unit := do
